@@ -9,6 +9,18 @@ import (
 	cidlink "github.com/ipld/go-ipld-prime/linking/cid"
 )
 
+// decMode is the decoding mode of the UnmarshalCBOR methods below. The default mode of
+// fxamacker/cbor refuses arrays of more than 131072 elements, while the schema puts no bound
+// on the link lists of Epoch, Subset, Block, Entry and DataFrame nodes (and the bindnode
+// decoder accepts them), so the limit is raised to the maximum the library supports.
+var decMode = func() cbor.DecMode {
+	dm, err := cbor.DecOptions{MaxArrayElements: 2147483647}.DecMode()
+	if err != nil {
+		panic(err)
+	}
+	return dm
+}()
+
 type _array []any
 
 // Get(i) returns the i-th element of the array, and bool indicating whether the element exists.
@@ -98,7 +110,7 @@ var (
 
 // implement the BinaryUnmarshaler interface for EpochFast
 func (x *Epoch) UnmarshalCBOR(data []byte) error {
-	dec := cbor.NewDecoder(bytes.NewReader(data))
+	dec := decMode.NewDecoder(bytes.NewReader(data))
 	var arr _array
 	if err := dec.Decode(&arr); err != nil {
 		return err
@@ -175,7 +187,7 @@ func (x *Subset) MarshalCBOR() ([]byte, error) {
 }
 
 func (x *Subset) UnmarshalCBOR(data []byte) error {
-	dec := cbor.NewDecoder(bytes.NewReader(data))
+	dec := decMode.NewDecoder(bytes.NewReader(data))
 	var arr _array
 	if err := dec.Decode(&arr); err != nil {
 		return err
@@ -261,7 +273,7 @@ func (x *Block) MarshalCBOR() ([]byte, error) {
 }
 
 func (x *Block) UnmarshalCBOR(data []byte) error {
-	dec := cbor.NewDecoder(bytes.NewReader(data))
+	dec := decMode.NewDecoder(bytes.NewReader(data))
 	var arr _array
 	if err := dec.Decode(&arr); err != nil {
 		return err
@@ -445,7 +457,7 @@ func (x *Rewards) MarshalCBOR() ([]byte, error) {
 }
 
 func (x *Rewards) UnmarshalCBOR(data []byte) error {
-	dec := cbor.NewDecoder(bytes.NewReader(data))
+	dec := decMode.NewDecoder(bytes.NewReader(data))
 	var arr _array
 	if err := dec.Decode(&arr); err != nil {
 		return err
@@ -507,7 +519,7 @@ func (x *Entry) MarshalCBOR() ([]byte, error) {
 }
 
 func (x *Entry) UnmarshalCBOR(data []byte) error {
-	dec := cbor.NewDecoder(bytes.NewReader(data))
+	dec := decMode.NewDecoder(bytes.NewReader(data))
 	var arr _array
 	if err := dec.Decode(&arr); err != nil {
 		return err
@@ -582,7 +594,7 @@ func (x *Transaction) MarshalCBOR() ([]byte, error) {
 }
 
 func (x *Transaction) UnmarshalCBOR(data []byte) error {
-	dec := cbor.NewDecoder(bytes.NewReader(data))
+	dec := decMode.NewDecoder(bytes.NewReader(data))
 	var arr _array
 	if err := dec.Decode(&arr); err != nil {
 		return err
@@ -677,7 +689,7 @@ func (x *DataFrame) MarshalCBOR() ([]byte, error) {
 }
 
 func (x *DataFrame) UnmarshalCBOR(data []byte) error {
-	dec := cbor.NewDecoder(bytes.NewReader(data))
+	dec := decMode.NewDecoder(bytes.NewReader(data))
 	var arr _array
 	if err := dec.Decode(&arr); err != nil {
 		return err
